@@ -32,6 +32,13 @@ def run(ctx):
                         flags=['-I', REPO + '/include', '--stop-on-fail'], backend='default', timeout=600 if ctx.tier == 'quick' else 3000, mem_gb=16,
                         functions=['modp_dtoa (runtime/modp_numtoa.c, compiled by CBMC\'s C front end)'],
                         bounds='every finite double |v| < 2^31, precision %d' % p, desc='exact correct-rounding oracle in 128-bit integers'))
+    # boundary values of the magnitude bound and of the whole/fraction split: concrete v and precision (solver-side constant folding)
+    edges = ['2147483647.0', '-2147483647.0', '2147483646.75', '-2147483646.25', '1073741824.0', '999999999.0', '1000000000.0', '0.0', '-1.0', '9.0', '0.5', '2.5', '0.125', '65536.0']
+    for i, e in enumerate(edges):
+        for p in ((0, 1, 2, 9) if ctx.tier == 'quick' else range(10)):
+            ctx.add(Harness('C08_dtoa_edge%02d_p%d' % (i, p), H + '/C08_dtoa.c', defines=defs + ['PREC=%d' % p, 'CX_V=%s' % e, 'MODP_C="%s/runtime/modp_numtoa.c"' % REPO], unwind=26, cover=(i == 0 and p == 2),
+                            flags=['-I', REPO + '/include', '--stop-on-fail'], timeout=120, mem_gb=4, functions=['modp_dtoa (runtime/modp_numtoa.c)'],
+                            bounds='v = %s (exactly representable), precision %d' % (e, p), desc='boundary value against the exact correct-rounding oracle'))
     ctx.assumptions += ['round-to-nearest-even FPU mode', 'sprintf("%e") path of modp_dtoa (|v| > 2^31-1) is outside the magnitude bound',
                         'fast_atof is exercised by the native differential run only in this tier (symbolic double division chains did not return verdicts inside the budget)']
     ctx.solve()
